@@ -116,12 +116,16 @@ def run_program(ls, rng, fc, mask, nzcv):
     regs[6] = 0x1000                         # load base (aligned)
     regs[13] = 0x7000
     desc = scen.prepare(ctx, rng, 't16', 0xBF00 | (fc << 4) | mask, mode=rng.choice(['svc', 'usr', 'sys', 'irq']), itpos='out',
-                        nzcv=nzcv, regs=regs, aif=0b111, e=1 if rng.random() < 0.2 else 0, ns=1 if exc == 'hyptrap' else 0)
+                        nzcv=nzcv, regs=regs, aif=0b111, e=1 if rng.random() < 0.2 else 0,
+                        ns=1 if exc == 'hyptrap' else (rng.randrange(2) if ctx.cfg['have_security_ext'] else 0))
     cpu = ctx.cpu
     r = cpu.registers
     r.sctlr.v = 0
     r.vbar.value = 0
     r.sctlr.te = te
+    if ctx.cfg['have_security_ext']:
+        r.scr.aw = rng.randrange(2)            # mask rules of the entries taken inside the block (Non-secure state included)
+        r.scr.fw = rng.randrange(2)
     if exc == 'hyptrap':
         r.hcr.twi = 1
         r.hvbar = 0
